@@ -536,6 +536,8 @@ class Engine:
                     if isinstance(x.func, ast.Attribute):
                         rt = type_of_expr(x.func.value)
                         if isinstance(rt, TObj): spec = self.specs.get(rt.name + '.' + x.func.attr)
+                        MUTATORS = {'append', 'remove', 'pop', 'update', 'extend', 'insert', 'sort', 'clear', 'setdefault', 'popitem', 'reverse', 'add', 'discard'}
+                        if spec is None and x.func.attr not in MUTATORS: continue            # a library / builtin method that is not a container mutator: pure (DESIGN 3.4)
                         if x.func.attr in PURE and (spec is None): pass
                         elif spec is not None and spec.params and spec.params[0][0] not in spec.modifies: pass
                         else: root_of(x.func.value)
